@@ -1329,7 +1329,8 @@ class Process(StateMachine, persistence.Savable, metaclass=ProcessStateMachineMe
         """
         assert not self.has_terminated(), 'Cannot step, already terminated'
 
-        if self.paused and self._paused is not None:
+        while self._paused is not None and not self._paused.done():
+            # paused again while waking up from the previous pause (play(); pause() in one loop iteration)? wait again
             await self._paused
 
         try:
